@@ -112,6 +112,17 @@ def corruptions(doc):
             if alt != orig:
                 nth(t, tag, i).attrs[attr] = alt
                 yield f"dangling-lookalike:{tag}#{i}:{('qualified', 'rooted', 'other-case', 'trailing-blank', 'doubled')[i % 5]}", expect, t
+    # --- a container that only a NESTED space system defines is not defined for the root's references: the definition moves from the root's
+    # ContainerSet into <SpaceSystem name="CHILD"><TelemetryMetaData><ContainerSet> (the root keeps its references to it)
+    for i, c in enumerate(cset.children):
+        name = c.attrs["name"]
+        if name not in used_conts:
+            continue
+        t = clone(base)
+        cs = find_set(t, "ContainerSet")
+        moved = cs.children.pop(i)
+        t.children.append(El("SpaceSystem", {"name": "CHILD"}, [El("TelemetryMetaData", children=[El("ContainerSet", children=[moved])])]))
+        yield f"defined-only-in-nested-space-system:{name}", "reject", t
     # --- duplicates and deletions
     for set_tag, members_used, change in (("ParameterTypeSet", used_types, "type"), ("ParameterSet", used_params, "param"),
                                           ("ContainerSet", used_conts, "cont")):
